@@ -80,7 +80,18 @@ func genTTL(r *Rng, tier string, p *Plan) {
 		case 5:
 			// a lookup of an element with a refresh of it landing in the middle of the lookup
 			it := PickOf(r, ttlItems...)
-			p.Add(Op{K: "lookup_during_add", S: it, At: now})
+			// often: time passes first, beyond the element's expiry, with no query in
+			// between (a query would clear the expired entry away), so that the
+			// lookup finds an expired entry
+			adv := int64(0)
+			if e, ok := exp[it]; ok && e >= now && r.Bool(0.7) {
+				adv = e - now + PickOf(r, int64(1), 1, 0, -1, ttl)
+				if adv < 0 {
+					adv = 0
+				}
+			}
+			now += adv
+			p.Add(Op{K: "lookup_during_add", S: it, At: now, N: adv})
 			exp[it] = now + ttl
 		default:
 			// advance: land exactly on an expiry, just before/after, or random
@@ -291,6 +302,9 @@ func runTTL(t *testing.T, p *Plan) *Outcome {
 				// the refresh runs in a goroutine of its own, started from inside the
 				// lookup's clock read; it completes there, or waits for the lock the
 				// lookup holds and completes right after
+				if op.N > 0 {
+					time.Sleep(time.Duration(op.N) * time.Microsecond)
+				}
 				done := make(chan struct{})
 				clk.hook = func() {
 					gid := make(chan int64, 1)
